@@ -311,8 +311,8 @@ def doc_params(own, b1, b2, via2):
     return add_messages(d, params="P")
 
 
-REQ_NAMES = [("evo/runTask", None), ("evo/runTask", "EvoRunTaskRequest"), ("evo/showRequest", None), ("evo/runTask", "EvoThing"), ("evo/requestReview", None), ("evo/runTask", "ReviewRequestStatusRequest")]
-NOT_NAMES = [("$/evo/noteChange", None), ("$/evo/noteChange", "EvoNoteChangeNotification"), ("evo/changeNotification", None), ("$/evo/noteChange", "EvoNote")]
+REQ_NAMES = [("evo/runTask", None), ("evo/runTask", "EvoRunTaskRequest"), ("evo/showRequest", None), ("evo/runTask", "EvoThing"), ("evo/requestReview", None), ("evo/runTask", "ReviewRequestStatusRequest"), ("evo/gr\u00f6\u00dfe\U00020000Lookup", "EvoAstralRequest")]
+NOT_NAMES = [("$/evo/noteChange", None), ("$/evo/noteChange", "EvoNoteChangeNotification"), ("evo/changeNotification", None), ("$/evo/noteChange", "EvoNote"), ("$/evo/ma\u00df\U00020000Changed", "EvoAstralNotification")]
 
 
 def doc_msgnames(rn, nn, has_params):
